@@ -60,10 +60,13 @@ def run(rep, tier):
     prog = gentypes.types_program()
     K = 8 if tier == 'quick' else 12
     rep.bounds['enum'] = f'all valid-UTF-8 names of <= {K} bytes; listed values ONE, TWO_B, HTTP_2, SHA3_512 (digit-led segments included); default and exhaustive configuration'
-    run_enum(rep, prog, K)
-    run_enum_serialize(rep, prog)
+    with rep.part('enum from_str'):
+        run_enum(rep, prog, K)
+    with rep.part('enum serialize'):
+        run_enum_serialize(rep, prog)
     from checks import c02
-    c02.run_union(rep, prog, 'C10')
+    with rep.part('union unknown variants'):
+        c02.run_union(rep, prog, 'C10')
     # native twins: every listed value and some unlisted ones through from_str, from_plain and the serde-derived JSON path
     # (the derive expansion is not executed symbolically); all paths must agree and round-trip the spelling
     texts = list(LISTED_ENUM) + [b'X9', b'one', b'HTTP2', b'SHA3512', b'TWO__B', b'TWOB']
